@@ -37,12 +37,13 @@ def ref_stretch(N, theta_s, theta_b, stagger="rho", Vstretching=1):
                 math.tanh(theta_s * (s + 0.5)) / (2 * math.tanh(0.5 * theta_s)) - 0.5
             )
         elif Vstretching == 2:
-            csur = (1 - math.cosh(theta_s * s)) / (math.cosh(theta_s) - 1)
+            # (1 - cosh(a s)) / (cosh(a) - 1) written with the half-angle identity cosh(x) - 1 = 2 sinh(x/2)**2: no cancellation for small a
+            csur = -((math.sinh(0.5 * theta_s * s) / math.sinh(0.5 * theta_s)) ** 2)
             cbot = math.sinh(theta_b * (s + 1)) / math.sinh(theta_b) - 1
             mu = (s + 1) * (1 + (1 - (s + 1)))
             c = mu * csur + (1 - mu) * cbot
         elif Vstretching == 4:
-            c = (1 - math.cosh(theta_s * s)) / (math.cosh(theta_s) - 1)
+            c = -((math.sinh(0.5 * theta_s * s) / math.sinh(0.5 * theta_s)) ** 2)
             c = (math.exp(theta_b * c) - 1) / (1 - math.exp(-theta_b))
         else:
             raise ValueError
